@@ -20,16 +20,16 @@ import (
 
 func cases(tier string) int {
 	if tier == "thorough" {
-		return 100000
+		return 300000
 	}
-	return 3000
+	return 20000
 }
 
 func cliEvery(tier string) int {
 	if tier == "thorough" {
-		return 200
+		return 400
 	}
-	return 100
+	return 400
 }
 
 var Check = &run.Check{
